@@ -9,7 +9,9 @@ on the pickled job, in-process; the job body (`vt.tasks_c28.Flagged`) reads a fl
 environment decides per life of the job whether it runs to a normal end, raises, or is never started.
 `asyncio.sleep` of the two worker modules is replaced by a zero-delay sleep that reports a tick to the fake (virtual
 time = number of sleeps; horizon HORIZON sleeps), everything else is the public path
-    Submitter(worker="slurm"|"sge", cache_root=<fresh>, sbatch_args|qsub_args=<user options>)(task).
+    Submitter(worker="slurm"|"sge", cache_root=<fresh>, sbatch_args|qsub_args=<user options>)(task, raise_errors=True)
+(properties.jsonl: observe at "worker return/exception" - raise_errors=True hands the worker's exception to the caller)
+and, on a smaller bound, the default call without raise_errors, where Submitter.__call__ decides what the caller sees.
 
 Choice points (index 0 = nominal answer):
     submit  : ok id | rc != 0 | rc 0 without an id
@@ -48,7 +50,7 @@ from vt.ref import sched as R
 
 LEVEL = "fault_enumeration"
 HORIZON = 150  # sleeps of the worker per submission
-WATCHDOG_S = 30
+WATCHDOG_S = 60  # real seconds per submission (a case normally takes ~30 ms)
 
 SUBMIT = ["ok", "rc1", "noid"]
 POLL = ["gone:ok", "gone:raised", "gone:norun", "pending", "running"]
@@ -559,7 +561,9 @@ def run(ctx):
     ctx.rule = (f"every scheduler answer sequence whose first {d_full} answers are arbitrary (submit x3, poll x5 incl. "
                 f"cluster side ok/raised/never-ran, accounting x8 SLURM / x6 SGE) and the rest nominal, for every subset of "
                 f"user options {{name,out,err}} in short and in long spelling (mixed spellings: first {d_spell} answers), "
-                "SLURM and SGE (poll_for_result_file True/False); non-trivial = >=1 non-nominal answer or >=1 user option")
+                f"SLURM and SGE (poll_for_result_file True/False), called with raise_errors=True (the worker's verdict reaches "
+                f"the caller); the default call (raise_errors=None) for the single-spelling subsets with the first {d_spell} "
+                "answers arbitrary; non-trivial = >=1 non-nominal answer or >=1 user option")
     ctx.assumptions += [
         "cluster side executed in-process (real load_and_run on the pickled job) at the moment the job leaves the queue",
         "asyncio.sleep of pydra.workers.slurm / pydra.workers.sge replaced by a zero-delay sleep (one coroutine only)",
